@@ -107,7 +107,9 @@ def gen_case(tape, tier):
             ops.append({"op": "replace", "fn": tape.pick(fnames, "fn"), "tag": f"'{ntag}"})
         else:
             ops.append({"op": "map", "values": {r: tape.choose(2, "value") for r, d in w["inputs"].items() if d["kind"] == "scalar"}})
-    return {"part": "A", "workload": w, "cached": cached, "cache": cache, "ops": ops}
+    roots = [n for n, d in w["inputs"].items() if d["kind"] == "scalar"]
+    array_roots = [r for r in roots if tape.coin(0.2, "array-root")]
+    return {"part": "A", "workload": w, "cached": cached, "cache": cache, "ops": ops, "array_roots": array_roots}
 
 
 def gen_case_B(tape, tier):
@@ -172,6 +174,10 @@ def simplify(case):
         c = copy.deepcopy(case)
         c["cache"]["type"] = "simple"
         yield c
+    for r in case.get("array_roots", []):
+        c = copy.deepcopy(case)
+        c["array_roots"] = [x for x in case["array_roots"] if x != r]
+        yield c
     for i, op in enumerate(case["ops"]):
         if op["op"] in ("call", "run") and len(op["kwargs"]) > 0:
             for k in list(op["kwargs"]):
@@ -202,7 +208,14 @@ def capacity(cache):
     return cache["disk_max"] if cache["disk_max"] is not None else 10**6
 
 
-def _val(name, i):
+def _val(name, i, array_roots=()):
+    if name in array_roots and i < 2:
+        # array-valued root argument: a square array and its transposed (non-contiguous) view - same shape and
+        # dtype, different values, identical memory
+        import numpy as np
+
+        a = np.arange(4).reshape(2, 2) + 10 * (1 + sorted(array_roots).index(name))
+        return a if i == 0 else a.T
     return f"{name}-{'ABCD'[i]}"
 
 
@@ -244,6 +257,7 @@ def run_A(case, tape, clear_on_mutation=False):
             if cached.cache is None:
                 probes["no_cache_object"] = 1
             prev = None
+            array_roots = tuple(case.get("array_roots", ()))
             distinct_keys = set()
             served = []  # what the cached pipeline answered so far (for the stale-cause diagnosis)
             epoch = [0]  # number of mutations so far
@@ -263,7 +277,7 @@ def run_A(case, tape, clear_on_mutation=False):
                     op2, repeated = op, False
                 kind = op2["op"]
                 if kind in ("call", "run"):
-                    kw = {k: _val(k, v) for k, v in op2["kwargs"].items()}
+                    kw = {k: _val(k, v, array_roots) for k, v in op2["kwargs"].items()}
                     supplies = any(k in prod for k in kw)
 
                     def invoke(p):
@@ -289,7 +303,7 @@ def run_A(case, tape, clear_on_mutation=False):
                     new_calls = sim.calls[n0:]
                     cached_fn_calls = [c for c in new_calls if c.fn.split("'")[0] in case["cached"]]
                     sig = {"cache_type": case["cache"]["type"]}
-                    rootkw = tuple(sorted((k2, v2) for k2, v2 in kw.items() if k2 not in prod))
+                    rootkw = tuple(sorted((k2, v2) for k2, v2 in op2["kwargs"].items() if k2 not in prod))
                     if twin_ok:
                         probes["steps_compared"] = probes.get("steps_compared", 0) + 1
                         if err is not None:
@@ -325,7 +339,7 @@ def run_A(case, tape, clear_on_mutation=False):
                     if not supplies and kind == "call":
                         for f in _needed(w, op2["output"], set())[0]:
                             if f in case["cached"]:
-                                distinct_keys.add((f, tuple(sorted(kw.items()))))
+                                distinct_keys.add((f, tuple(sorted(op2["kwargs"].items()))))
                     # Is the target's entry certainly resident after this call?  Judged through the public `.cache`
                     # view of the in-memory caches (unknown for the disk cache): either this call added a key for the
                     # target, or it was answered entirely from the cache (no user call at all).
@@ -387,7 +401,7 @@ def run_A(case, tape, clear_on_mutation=False):
                         cached.cache.clear()
                     probes["replace"] = probes.get("replace", 0) + 1
                 elif kind == "map":
-                    inputs = {k: _val(k, v) for k, v in op2["values"].items()}
+                    inputs = {k: _val(k, v, array_roots) for k, v in op2["values"].items()}
                     try:
                         exp = twin.map(inputs, parallel=False, storage="dict")
                         exp = {o: canon(exp[o].output) for o in all_outputs(w)}
@@ -404,16 +418,9 @@ def run_A(case, tape, clear_on_mutation=False):
                         return
                     probes["map_steps"] = probes.get("map_steps", 0) + 1
                     if got != exp:
-                        bad = next(o for o in all_outputs(w) if got[o] != exp[o])
-                        cause = None
-                        for e in reversed(map_served):
-                            if e["inputs"] == inputs and e["outputs"].get(bad) == got[bad] and e["epoch"] < epoch[0]:
-                                cause = "mutation"
-                                break
                         V("twin", "map-value-differs", {"step": i, "got": repr(got)[:300], "twin": repr(exp)[:300], "history": ops[: i + 1]},
                           {"cache_type": case["cache"]["type"]})
                         return
-                    map_served.append({"inputs": inputs, "outputs": got, "epoch": epoch[0]})
 
         prev_ok = [False]
         prev_resident = [None]
